@@ -27,7 +27,14 @@ RULE = ('trees: form / generic documents in four kinds, detached fragments, seve
         'values on free attributes of ARBITRARY elements (the form, a control, an unrelated descendant, html / head / meta, an '
         'element outside the form); every pseudo-class, alone and under "form X" / ":not(X)" / ":is(X)" / ":has(X)" / "* > X", '
         'is evaluated with EVERY element as the target of match and closest, and the document, the root and sampled elements as '
-        'the target of select / select_one / iselect / filter, also reusing one compiled selector over several documents.')
+        'the target of select / select_one / iselect / filter, also reusing one compiled selector over several documents. '
+        'Third sweep (rootless targets and frame boundaries): every KIND of element of a form document (stratified by tag and '
+        'type, so each control kind is drawn whenever it occurs) becomes a call target that has no parent at all — copied out '
+        'of the tree (copy.copy), re-created with the same attributes and never inserted (new_tag), or extracted — and is the '
+        'target of match / closest for every pseudo-class and of every entry point for wrapped ones, as are the elements '
+        'inside such a fragment and the document left behind; <iframe> elements hold controls / forms / text / another '
+        'iframe DIRECTLY (no embedded html / body, as html.parser and XML parsers leave them), and the document, every '
+        'element directly inside a frame and the frame itself are targets. A call that does not return is the failing input.')
 
 HOSTILE = ['', ' ', 'x', '0', '-1', '1e5', '1E-400', '.5', '-.', '5.', '1' * 400, '٣', '0000-01-01', '0001-01-01', '0999-12-31', '1000-02-29',
            '9999-12-31', '10000-01-01', '100000000-06-15', '2020-02-30', '2019-W53', '2020-W53', '2020-W00', '2020-W54', '0999-W01', '10000-W52',
@@ -347,6 +354,171 @@ def deep_sweep(chk, rng, raised):
     return calls
 
 
+def hoist_iframes(r, t, p):
+    """Frame content without the embedded html / body: parsers that keep the markup inside <iframe> as elements (html.parser, XML
+    parsers) put whatever the author wrote directly under the iframe element — controls, a form, text, another iframe.  With
+    probability `p` per iframe the embedded document is replaced by (some of) its body's children; empty iframes get controls."""
+    if t[0] != 'e':
+        return t
+    _, name, prefix, ns, attrs, kids = t
+    kids = [hoist_iframes(r, k, p) for k in kids]
+    if name == 'iframe' and r.random() < p:
+        inner = [k for k in kids if k[0] == 'e' and k[1] == 'html']
+        pool = []
+        for h in inner:
+            for b in h[5]:
+                pool.extend(b[5] if b[0] == 'e' and b[1] == 'body' else [b])
+        pool = [k for k in pool if r.random() < 0.8] + [gen.gen_control(r) for _ in range(r.choice([0, 1, 1, 2]))]
+        x = r.random()
+        if x < 0.55:
+            kids = pool                                                   # controls / text directly inside the frame
+        elif x < 0.7:
+            kids = [('e', 'form', None, None, [], pool)]                  # a form is the frame's only child
+        elif x < 0.8:
+            kids = [('e', 'body', None, None, [], pool)]                  # body without html
+        elif x < 0.9:
+            kids = [('e', 'iframe', None, None, [], pool)] + [gen.gen_control(r)]     # frame directly inside a frame
+        else:
+            kids = pool + inner                                           # controls next to an embedded document
+    return ('e', name, prefix, ns, list(attrs), kids)
+
+
+ROOTLESS_VARIANTS = ('copy', 'new_tag', 'extract')
+
+
+def make_rootless(soup, el, variant):
+    """`el` of `soup` as an element that has no parent at all (not even a document object)."""
+    import copy
+    if variant == 'copy':
+        return copy.copy(el)
+    if variant == 'new_tag':
+        return soup.new_tag(el.name, namespace=el.namespace, nsprefix=el.prefix, attrs=dict(el.attrs))
+    return el.extract()
+
+
+def stratum(el):
+    a = el.attrs
+    return (el.name, str(a.get('type', '')).lower(), bool(a.get('name')), 'checked' in a, el.parent is not None and el.parent.name == 'iframe')
+
+
+def open_radio(el):
+    """A radio button that belongs to a named group and is not checked: the state pseudo-classes look for its form owner."""
+    a = el.attrs
+    return el.name == 'input' and str(a.get('type', '')).lower() == 'radio' and bool(a.get('name')) and 'checked' not in a
+
+
+def rootless_sweep(chk, rng, raised):
+    """Call targets without any parent, and elements directly inside a frame element (see RULE, third sweep).  Returns the number
+    of calls made; stops at the first call that does not return (each one costs the watchdog's whole limit)."""
+    import framework
+    quick = chk.tier == 'quick'
+    n_docs = 90 if quick else 3000
+    compiled = {}
+
+    def comp(sel):
+        if sel not in compiled:
+            try:
+                compiled[sel] = sv.compile(sel, {'svg': gen.SVG})
+            except Exception:       # noqa: BLE001
+                compiled[sel] = None
+        return compiled[sel]
+    calls = n_rootless = n_in_frame = n_radio_open = n_frame_radio_open = 0
+    by_variant = dict.fromkeys(ROOTLESS_VARIANTS, 0)
+    kinds_seen = set()
+
+    class Stop(Exception):
+        pass
+
+    def guarded(rec, fn):
+        """One call into the library; any exception is recorded with `rec`, a non-returning call also ends the sweep."""
+        nonlocal calls
+        calls += 1
+        try:
+            fn()
+            return True
+        except Exception as e:      # noqa: BLE001
+            hang = isinstance(e, framework.LibraryDidNotTerminate)
+            raised.append({**rec, 'what': 'a call into the library did not return' if hang else 'matching raised',
+                           'exception': f'{type(e).__name__}: {e}'[:200], 'sweep': 'rootless / frame boundary'})
+            if hang:
+                raise Stop()
+            return False
+
+    def drive(rec, tgt, sels_all, sels_full):
+        """match + closest with every selector of `sels_all`, every entry point with the ones of `sels_full`."""
+        for sel in sels_all:
+            c = comp(sel)
+            if c is not None and not guarded({**rec, 'selector': sel}, lambda: (c.match(tgt), c.closest(tgt))):
+                return
+        for sel in sels_full:
+            c = comp(sel)
+            if c is not None and not guarded({**rec, 'selector': sel}, lambda: entry_points(c, tgt, True)):
+                return
+
+    try:
+        for _ in range(n_docs):
+            kind, top = gen.gen_state_doc(rng)
+            top = [mutate(rng, hoist_iframes(rng, densify(rng, t, rng.choice([0.0, 0.3, 1.0])), 0.7), False) for t in top]
+            if rng.random() < 0.3:
+                place_odd(rng, top, rng.choice([1, 2]))
+            try:
+                soup = build(kind, top, False)
+            except Exception:       # noqa: BLE001
+                continue
+            tree = [jsonable(t) for t in top]
+            els = gen.elements(soup)
+            if not els:
+                continue
+            base = {'kind': kind, 'tree': tree, 'detached': False}
+            # (a) the whole document (frames hold their content directly), then every element directly inside a frame and the frames
+            for ps in rng.sample(ALL_PSEUDO, 12 if quick else len(ALL_PSEUDO)) + [':indeterminate', ':default', ':checked', ':dir(rtl)', ':root']:
+                c = comp(ps)
+                guarded({**base, 'selector': ps, 'target': []}, lambda: (c.select(soup), c.select_one(soup), list(c.iselect(soup)), c.filter(soup)))
+            framed = [e for e in els if e.name == 'iframe' or (e.parent is not None and e.parent.name == 'iframe')]
+            n_in_frame += len(framed)
+            n_frame_radio_open += sum(1 for e in framed if open_radio(e))
+            for e in framed[:8 if quick else 40]:
+                drive({**base, 'target': enc.path_of(e)}, e, ALL_PSEUDO, [rng.choice(WRAPS).format(rng.choice(ALL_PSEUDO))])
+            # (b) one element of every kind present (tag, type, named?, checked?, directly inside a frame?) as a ROOTLESS target
+            strata = {}
+            for e in els:
+                strata.setdefault(stratum(e), []).append(e)
+            keys = sorted(strata, key=repr)
+            rng.shuffle(keys)
+            for key in keys[:10 if quick else 40]:
+                e = rng.choice(strata[key])
+                path = enc.path_of(e)
+                variant = rng.choice(ROOTLESS_VARIANTS)
+                doc = soup
+                if variant == 'extract':            # extraction changes the document: work on a fresh one
+                    doc = build(kind, top, False)
+                    e = enc.node_at(doc, path)
+                try:
+                    tgt = make_rootless(doc, e, variant)
+                except Exception:       # noqa: BLE001  (bs4 could not copy an odd attribute value: not the library under test)
+                    continue
+                n_rootless += 1
+                by_variant[variant] += 1
+                kinds_seen.add(key[:2])
+                n_radio_open += open_radio(tgt)
+                rec = {**base, 'target': path, 'rootless': variant}
+                drive(rec, tgt, ALL_PSEUDO, [rng.choice(WRAPS).format(rng.choice(ALL_PSEUDO)) for _ in range(2)])
+                # elements INSIDE the rootless fragment (their ancestor chain ends at an element, not at a document object)
+                inner = gen.elements(tgt)[1:]
+                for sub in rng.sample(inner, min(3, len(inner))):
+                    drive({**rec, 'inner': enc.path_of(sub)}, sub, rng.sample(ALL_PSEUDO, 10) + [':indeterminate', ':default', ':dir(ltr)'], [])
+                if variant == 'extract':            # and the document the element was taken out of
+                    ps = rng.choice(ALL_PSEUDO)
+                    guarded({**rec, 'selector': ps, 'remainder': True}, lambda: entry_points(comp(ps), doc, True))
+    except Stop:
+        chk.notes['rootless_sweep'] = 'stopped at the first call that did not return'
+    chk.coverage.update({'rootless_documents': n_docs, 'rootless_targets': n_rootless, 'rootless_targets_by_variant': by_variant,
+                         'rootless_element_kinds': len(kinds_seen), 'rootless_named_unchecked_radios': n_radio_open,
+                         'frame_boundary_elements': n_in_frame, 'frame_boundary_named_unchecked_radios': n_frame_radio_open,
+                         'rootless_calls': calls})
+    return calls
+
+
 def run(chk):
     import framework
     import matchcorr
@@ -409,7 +581,10 @@ def run(chk):
                     raised.append({'what': f'{fn.__name__}({badt!r}) raised {type(e).__name__} instead of TypeError'})
     evaluations += degenerate_sweep(chk, random.Random(chk.seed * 17 + 8), raised)
     evaluations += deep_sweep(chk, random.Random(chk.seed * 31 + 8), raised)
-    sweep_calls = odd_state_sweep(chk, random.Random(chk.seed * 7919 + 8), raised)
+    n_before = len(raised)
+    sweep_calls = rootless_sweep(chk, random.Random(chk.seed * 104729 + 8), raised)
+    if not any('did not return' in str(b.get('what')) for b in raised[n_before:]):      # every further hang costs the watchdog's limit
+        sweep_calls += odd_state_sweep(chk, random.Random(chk.seed * 7919 + 8), raised)
     evaluations += sweep_calls
     nontriv += sweep_calls
     if driver_ok:
@@ -444,8 +619,6 @@ def dec_val(v):
 def replay(chk, path):
     data = json.load(open(path))
     if 'degenerate_document' in data:
-        import bs4
-        import soupsieve as sv
         parser, _, rest = data['degenerate_document'].partition(':')
         if rest == 'emptied':
             top = bs4.BeautifulSoup('<a><b>t</b></a>', parser)
@@ -471,7 +644,6 @@ def replay(chk, path):
         print(json.dumps({'exception': None}))
         return 0
     if 'deep_shape' in data:
-        import soupsieve as sv
         soup = deep_doc(data['deep_shape'], data['depth'])
         top, lf, sel = soup.find(id='top'), soup.find(id='leaf'), data['selector']
         for fn in (lambda: sv.select(sel, soup), lambda: sv.select_one(sel, top), lambda: sv.match(sel, lf), lambda: sv.closest(sel, lf),
@@ -493,6 +665,12 @@ def replay(chk, path):
         return ('e', t[1], t[2], t[3], [(k, dec_val(v)) for k, v in t[4]], [un(k) for k in t[5]])
     soup = build(data['kind'], [un(t) for t in data['tree']], data.get('detached', False))
     tgt = enc.node_at(soup, data['target']) if 'target' in data else soup
+    if data.get('rootless'):        # the target is taken out of the tree first (copy / new_tag / extract)
+        tgt = make_rootless(soup, tgt, data['rootless'])
+        if data.get('inner'):
+            tgt = enc.node_at(tgt, data['inner'])
+        elif data.get('remainder'):
+            tgt = soup
     try:
         c = sv.compile(data['selector'], {'svg': gen.SVG})
         entry_points(c, tgt, True)
